@@ -39,10 +39,14 @@ def budget(tier):
     return {"examples": 3000 if tier == "quick" else 40000, "shards": 16, "shrink": 100 if tier == "quick" else 600}
 
 
+# how a new design is handed over: a new array object, or new values written into the array the signal already holds
+SET_MODES = ["rebind", "inplace"]
+
+
 def strategy(tier):
     big = tier != "quick"
     op = st.one_of(
-        st.fixed_dictionaries({"op": st.just("set"), "k": st.integers(0, 3)}),
+        st.fixed_dictionaries({"op": st.just("set"), "k": st.integers(0, 3), "mode": st.sampled_from(SET_MODES)}),
         st.fixed_dictionaries({"op": st.just("response")}),
         st.fixed_dictionaries({"op": st.just("response")}),
         st.fixed_dictionaries({"op": st.just("seed"), "j": st.integers(0, 3), "w": st.integers(0, 2)}),
@@ -61,11 +65,12 @@ def strategy(tier):
         "nonsym": st.booleans(),     # T4/T5: non-symmetric system matrix (AssembleGeneral with a non-symmetric element matrix)
         "agg": st.sampled_from(["pnorm", "ks", "soft"]), "agg_opt": st.sampled_from(["plain", "active", "undamped"]),
         "final_k": st.integers(0, 3), "final_seeds": st.lists(st.integers(0, 3), min_size=1, max_size=3),
+        "final_mode": st.sampled_from(SET_MODES),
     })
     # histories are built from optimisation-loop-like rounds (set, response, seeds, sensitivity, reset) with optional
     # parts, plus free random ops in between, so that most histories contain several complete cycles
     seed_op = st.fixed_dictionaries({"op": st.just("seed"), "j": st.integers(0, 5), "w": st.integers(0, 2)})
-    set_op = st.fixed_dictionaries({"op": st.just("set"), "k": st.integers(0, 3)})
+    set_op = st.fixed_dictionaries({"op": st.just("set"), "k": st.integers(0, 3), "mode": st.sampled_from(SET_MODES)})
     # round A: a full optimisation-loop cycle (set, response, seeds, sensitivity, reset), each part optional
     round_a = st.tuples(
         st.one_of(st.none(), set_op, set_op, set_op),
@@ -81,9 +86,10 @@ def strategy(tier):
     round_c = st.lists(op, min_size=1, max_size=3)
     # round D: alternate the seeded output across designs (per-output caches): seed j on the current response, then a new
     # design seeded on another output only, then output j again without a new response
-    round_d = st.tuples(st.integers(0, 5), st.integers(0, 5), st.integers(0, 3), st.integers(0, 2)).map(
+    round_d = st.tuples(st.integers(0, 5), st.integers(0, 5), st.integers(0, 3), st.integers(0, 2),
+                        st.sampled_from(SET_MODES)).map(
         lambda t: [{"op": "response"}, {"op": "reset"}, {"op": "seed", "j": t[0], "w": t[3]}, {"op": "sens"},
-                   {"op": "reset"}, {"op": "set", "k": t[2]}, {"op": "response"},
+                   {"op": "reset"}, {"op": "set", "k": t[2], "mode": t[4]}, {"op": "response"},
                    {"op": "seed", "j": t[1], "w": t[3]}, {"op": "sens"},
                    {"op": "reset"}, {"op": "seed", "j": t[0], "w": t[3]}, {"op": "sens"}])
     rnd_round = st.one_of(round_a, round_a, round_a, round_b, round_b, round_c, round_d)
@@ -523,14 +529,20 @@ def check_case(case):
     ops = list(case["ops"])
     # final cycle: reset -> set final design -> response -> seeds -> sensitivity (compared like any other)
     fk = case["opts"]["final_k"]
-    ops += [{"op": "reset"}, {"op": "set", "k": fk}, {"op": "response"}]
+    ops += [{"op": "reset"}, {"op": "set", "k": fk, "mode": case["opts"].get("final_mode", "rebind")}, {"op": "response"}]
     ops += [{"op": "seed", "j": j, "w": 7 + jj} for jj, j in enumerate(case["opts"]["final_seeds"])]
     ops += [{"op": "sens", "final": True}]
     for op in ops:
         t = op["op"]
         if t == "set":
             cur_k = op["k"]
-            used.sources[0].state = used.designs[cur_k].copy()
+            cur = used.sources[0].state
+            new = used.designs[cur_k]
+            if op.get("mode", "rebind") == "inplace" and isinstance(cur, np.ndarray) and cur.shape == np.shape(new):
+                cur[...] = new          # the design array is updated in place (same object, new values)
+                labels.append("set_inplace")
+            else:
+                used.sources[0].state = new.copy()
             responded = False
         elif t == "response":
             if not guarded(used.net.response, "response"):
